@@ -4,6 +4,8 @@
 // rules), the slice-header size, the defrag thresholds and the page-cache bounds.
 // Translator tie for C20: Model/Alloc.lean imports the generated file, Props/C20.lean proves the
 // table facts (table_wf, class_fits, counters fit their integer types) about these definitions.
+// links.go: which back-link writes the source contains (lnk*); locks.go: which class's mutex Malloc / Free
+// lock and which class's state they edit (mallocLockSel, freeLockSel, …).
 package main
 
 import (
@@ -205,6 +207,7 @@ func main() {
 	fmt.Fprintf(&sb, "def pageCacheLow : Nat := %d\ndef pageCacheHigh : Nat := %d\n", cacheLow, cacheHigh)
 	fmt.Fprintf(&sb, "def defragFromWasteMB : Nat := %d\ndef defragToWasteMB : Nat := %d\n", fromMB, toMB)
 	linkFacts(&sb)
+	lockFacts(&sb)
 	sb.WriteString("\nend GocoinV.Gen.MemClasses\n")
 	out := vlib.Root() + "/lean/GocoinV/Gen/MemClasses.lean"
 	os.Remove(out)
